@@ -98,8 +98,8 @@ CLAIMED = {
    design="6 C13"),
  "C16": dict(
    text="Proof (every clause, exact arithmetic) + dense exploration. Model/Quadratic.v: Q_{C,L} over components of the commutator graph and commutants, the twirl with exact rational coefficients. Proved for every n: symmetries from different components or different linear symmetries have disjoint Pauli supports and are trace-orthogonal (C16_orthogonal_partial, from trace orthogonality of Pauli matrices); every member of the model's full basis commutes with g(x)1+1(x)g for every member g (C16_invariant: pairing S<->g.S inside a commutator-graph component, letterwise phase identities, linear independence of Pauli matrices). any two members of the basis are trace-orthogonal, each has squared norm |Q|4^n (C16_pairwise_orthogonal, C16_norm); the twirl fixes every symmetry exactly, <Q,twirl m>=<Q,m> for every symmetry (hence idempotent with orthogonal residual), its output commutes with every g(x)1+1(x)g (C16_twirl_fixes/_projects/_idempotent/_invariant). Completeness is proved too (C16_complete: every combination commuting with every g(x)1+1(x)g is fixed by the twirl, coefficient by coefficient, hence a combination of the symmetries; C16_invariant_orthogonal_zero), so the symmetries are a basis of the commutant and their number is its dimension. Per run, on collections of <=2 generators at n<=2 (n=3 thorough): basis as term dictionaries vs the model; invariance under g(x)1+1(x)g, orthogonality and non-vanishing exactly on dense matrices; count vs commutant dimension by a rank computation; twirl coefficients vs exact rationals; linearity, idempotence, fixing the basis, invariant output, orthogonal residual (dense, 1e-9).",
-   note="Not proved: invariance, completeness (basis theorem of arXiv:2502.16404; per-input floating-point rank, n<=2) and the projector laws of the twirl (checked densely per input): partial. No axioms.",
-   technique="Coq orthogonality proof (disjoint supports) + exact/dense per-input validation of the remaining clauses",
+   note="Every clause of the property is proved over exact arithmetic; the source normalises with a float square root (not modelled; compared per run with tolerance 1e-9). No axioms.",
+   technique="Coq proofs (invariance, orthogonality, norms, projector laws, completeness) + exact term-level and dense per-input correspondence",
    design="6 C16"),
  "C04": dict(
    text="Proof: Coq theorems C04_product/commute/adjoint/conj/reject hold for every n and every pair of strings, about a bit-level model of PauliString.sign/commutes_with/multiply/adjoint_map/complex_conj and the Kronecker-product matrices over Z[i]. The model is tied to /repo on every run by a correspondence run: all 16^n pairs n<=3 (n<=4 thorough) plus random pairs up to n=64 and all length mismatches, implementation vs extracted model, and numpy matrices multiplied out for n<=3.",
